@@ -3,6 +3,7 @@ from __future__ import annotations
 
 import json
 import random
+from collections import Counter
 
 from .. import model, sem
 from ..runner import keyhash
@@ -341,6 +342,22 @@ def bfs(ctx, case):
 # ---------------------------------------------------------------------------
 # random long histories over a larger universe and all descriptor classes
 # ---------------------------------------------------------------------------
+def _degree_after(M, op):
+    """largest coordination number the model graph would have after a bond-adding op (0 for other ops)"""
+    if op[0] in ("add_bond", "add_formed_bond", "add_broken_bond", "add_fleeting_bond"):
+        new = [frozenset(op[1:3])]
+    elif op[0] == "bonds_from_bond_order_matrix":
+        mat, thr = op[1], op[2]
+        new = [frozenset((i, j)) for i in range(len(mat)) for j in range(len(mat)) if i != j and mat[i][j] > thr]
+    else:
+        return 0
+    deg = Counter()
+    for b in set(M["bonds"]) | set(new):
+        for a in b:
+            deg[a] += 1
+    return max(deg.values(), default=0)
+
+
 def alphabet_elements(cls):
     return sorted({op[2] for op in alphabet(cls) if op[0] == "add_atom"}, key=repr)
 
@@ -493,6 +510,11 @@ def random_history(ctx, case):
         else:
             op = random_op(rng, M, cls, ids)
         if model.classify(M, cls, op) in ("must-raise", "skip"):
+            continue
+        if _degree_after(M, op) > 8:
+            # cost wall of the library, not a property: colour refinement tabulates all k! neighbour orders of a
+            # descriptor-free atom (k = 10: ~1 GB, k = 11: tens of GB); histories stay at coordination numbers <= 8
+            ctx.count("skipped:coordination-number-above-8")
             continue
         hist.append(op)
         uni = tuple(sorted(set(M["atoms"]) | {0, 1, ABSENT}, key=repr))[:6]
